@@ -64,6 +64,14 @@ def gen(rng, tier):
                         'ret': gen_payload(rng, depth, allow_bytes=True)})
         return out
     case = {'cfg': cfg, 'names': names, 'c2s': msgs(), 's2c': msgs()}
+    # handlers of both kinds (plain functions and coroutines) side by side
+    cfg['mixed_kinds'] = rng.random() < 0.5
+    if rng.random() < 0.3:
+        # a second sender at wire level: consecutive events in ONE polling
+        # payload (handled by the server back to back)
+        case['burst'] = [{'ns': rng.choice(nss), 'event': rng.choice(names),
+                          'payload': gen_payload(rng, 1, allow_bytes=True)}
+                         for _ in range(rng.randrange(2, 6))]
     if rng.random() < 0.05:
         # one more message at the very end whose payload contains a dict that
         # IS a placeholder on the wire ({'_placeholder': truthy, 'num': n})
@@ -137,9 +145,13 @@ def _run(case, cfg, w):
         plan = make_plan(who)
         for ns in cfg['nss']:
             if cfg['style'] == 'func':
-                for evn in events + ['connect', 'disconnect']:
+                for ei, evn in enumerate(events + ['connect', 'disconnect']):
+                    co = coroutine
+                    if cfg.get('mixed_kinds') and w.mode == 'async' and \
+                            ei % 2:
+                        co = not co
                     target.on(evn, w.make_handler((who, 'func', ns, evn),
-                                                  plan, coroutine),
+                                                  plan, co),
                               namespace=ns)
             else:
                 if w.mode == 'async':
@@ -314,6 +326,43 @@ def _run(case, cfg, w):
                               % (direction, i, trepr(m['ret']),
                                  trepr(r['call'][1]), trepr(wantc)),
                               direction)
+    burst = case.get('burst')
+    if burst and look_mark[0] is None:
+        wp = w.add_peer('s')
+        wp.open()
+        w.settle()
+        wsid = {}
+        for ns in cfg['nss']:
+            wp.send_pkt(sio.CONNECT, ns, None, None)
+            w.settle()
+            for r in wp.rx:
+                if r['pkt'].type == sio.CONNECT and r['pkt'].nsp == ns:
+                    wsid[ns] = r['pkt'].data['sid']
+        counters['s'] = 0
+        rets['s'].clear()
+        n0 = rec.seq
+        wp.post_pkts([(sio.EVENT, m['ns'], None,
+                       [m['event']] + expect_args(m['payload']))
+                      for m in burst if m['ns'] in wsid])
+        w.settle(horizon=1.0)
+        inv = [e for e in rec.events if e['seq'] > n0
+               and e['kind'] == 'h_enter' and e['label'][0] == 's'
+               and e['label'][3] not in ('connect', 'disconnect')]
+        sent = [m for m in burst if m['ns'] in wsid]
+        if len(inv) != len(sent):
+            v.add('invocation_count', 'payload of %d events, %d handler '
+                  'invocations' % (len(sent), len(inv)), 'burst')
+        for i, m in enumerate(sent[:len(inv)]):
+            e = inv[i]
+            want = [wsid[m['ns']]] + expect_args(m['payload'])
+            if e['label'][2] != m['ns'] or e['label'][3] != m['event']:
+                v.add('order_or_routing', 'payload event %d (%s on %s) was '
+                      'handled by %s' % (i, m['event'], m['ns'], e['label']),
+                      'burst')
+            elif not typed_eq(list(e['args']), want):
+                v.add('arguments', 'payload event %d: handler received %s, '
+                      'expected %s' % (i, trepr(list(e['args'])),
+                                       trepr(want)), 'burst')
     for e in rec.errors:
         late = look_mark[0] is not None and e['seq'] > look_mark[0]
         (add_look if late else v.add)(
